@@ -33,6 +33,28 @@
 //! see `finish` below.
 //!
 //! `arrive … via=clone|template|swap|readyclone`: how the caller obtains the handle it calls, see `request_via`.
+//!
+//! Construction paths (header `ctor=builder|new|config|confignew|service`, default `builder`): the layer is made by
+//! `CoalesceLayer::builder(f).name(..).build()`, `CoalesceLayer::new(f)`, `CoalesceLayer::with_config(` a clone of
+//! `CoalesceConfig::builder(f).name(..).build())`, `CoalesceLayer::with_config(CoalesceConfig::new(f))`, or there is no
+//! layer at all and every service is `CoalesceService::new(backend, Arc::new(CoalesceConfig::new(f)))`.
+//!
+//! `arrive … svc=<k>` (default 0): the request goes to service k. Service 0 is built when the case begins; service k is
+//! built LAZILY, at the first request that names it (so: after other services were built and possibly used), from the
+//! SAME layer value for even k and from a clone of the layer taken at that moment for odd k (the clone is kept until
+//! `manual dropsvc`). All services wrap clones of ONE backend (one serial-number source), so a request to service j for
+//! a key that is in flight on service i must be seen to start its own inner call: `Layer::layer` gives every service
+//! its own in-flight table; what a `CoalesceService` shares, it shares with its own clones only. Meta line
+//! `#arrive <c> <key>@<k>` for k > 0 (the monitors treat (service, key) as the key).
+//!
+//! `arrive … clonepanic=1`: the value the inner call of this request produces (response or error — the wrapped
+//! service's own types, `S::Response: Clone`, `S::Error: Clone`) PANICS THE FIRST TIME IT IS CLONED (one-shot; later
+//! clones succeed). A leader clones its result once, in its completing poll, to publish it to the waiters; that poll
+//! then unwinds: the leading request panics, so its waiters must fail with `leader_cancelled` and the key must be free
+//! at once. Inert for a request that coalesces onto another call (it makes no inner call).
+//!
+//! `arrive … eclone=1`: the caller clones what it received (`Result<Resp, CoalesceError<IErr>>` — `CoalesceError::clone`,
+//! what an outer layer that shares results, e.g. a second coalescing layer, does with it) and looks at the clone only.
 use crate::world::*;
 use std::cell::Cell;
 use std::collections::{BTreeMap, BTreeSet};
@@ -43,7 +65,7 @@ use std::sync::atomic::{AtomicBool, AtomicU64, AtomicUsize, Ordering};
 use std::sync::{Arc, Mutex};
 use std::task::{Context, Poll, Waker};
 use tower::{Layer, Service};
-use tower_resilience_coalesce::{CoalesceError, CoalesceLayer, CoalesceService};
+use tower_resilience_coalesce::{CoalesceConfig, CoalesceError, CoalesceLayer, CoalesceService};
 
 type KeyFn = fn(&Req) -> u64;
 fn key_of(r: &Req) -> u64 {
@@ -58,21 +80,63 @@ fn key_of(r: &Req) -> u64 {
 pub struct CallPanic {
     inner: Inner,
     shared: Arc<Mutex<Shared>>,
+    /// which of the adapter's services this is the wrapped service of
+    ix: usize,
 }
 const CALL_PANIC: u64 = u64::MAX;
+const CLONE_PANIC: u64 = u64::MAX - 1;
+
+/// one-shot: the first `Clone` of the value that carries it panics
+#[derive(Default)]
+pub struct Bomb(Option<Arc<AtomicBool>>);
+impl Bomb {
+    fn armed(on: bool) -> Bomb {
+        Bomb(if on { Some(Arc::new(AtomicBool::new(true))) } else { None })
+    }
+    fn pass(&self, what: &str) -> Bomb {
+        if let Some(b) = &self.0 {
+            if b.swap(false, Ordering::SeqCst) {
+                panic!("scripted panic inside Clone of the {}", what);
+            }
+        }
+        Bomb(self.0.clone())
+    }
+}
+/// the wrapped service's response / error: the scripted inner service's, plus a `Clone` that can be made to panic
+pub struct CResp {
+    r: Resp,
+    bomb: Bomb,
+}
+impl Clone for CResp {
+    fn clone(&self) -> CResp {
+        let bomb = self.bomb.pass("response");
+        CResp { r: self.r.clone(), bomb }
+    }
+}
+pub struct CErr {
+    e: IErr,
+    bomb: Bomb,
+}
+impl Clone for CErr {
+    fn clone(&self) -> CErr {
+        let bomb = self.bomb.pass("error");
+        CErr { e: self.e.clone(), bomb }
+    }
+}
+
 impl Service<Req> for CallPanic {
-    type Response = Resp;
-    type Error = IErr;
+    type Response = CResp;
+    type Error = CErr;
     type Future = Hooked;
-    fn poll_ready(&mut self, cx: &mut Context<'_>) -> Poll<Result<(), IErr>> {
-        self.inner.poll_ready(cx)
+    fn poll_ready(&mut self, cx: &mut Context<'_>) -> Poll<Result<(), CErr>> {
+        self.inner.poll_ready(cx).map_err(|e| CErr { e, bomb: Bomb::default() })
     }
     fn call(&mut self, req: Req) -> Hooked {
         if req.tag == CALL_PANIC {
             panic!("scripted panic inside call()");
         }
-        let (c, key) = (req.c, req.key);
-        Hooked { c, key, over: false, shared: self.shared.clone(), fut: self.inner.call(req) }
+        let (c, key, bomb) = (req.c, req.key, req.tag == CLONE_PANIC);
+        Hooked { c, key, ix: self.ix, bomb, over: false, shared: self.shared.clone(), fut: self.inner.call(req) }
     }
 }
 
@@ -81,8 +145,10 @@ type SvcFut = <Svc as Service<Req>>::Future;
 
 /// What the inner futures' destructors need: the owner's handle, the armed hooks, the parked futures.
 pub struct Shared {
-    /// the owner's handle; `None` once `manual dropsvc` has dropped it
-    svc: Option<Svc>,
+    /// the owner's handles, one per service built so far (`svc=<k>`); none left once `manual dropsvc` has dropped them
+    svcs: BTreeMap<usize, Svc>,
+    /// `manual dropsvc` has happened: no service can be called or built any more
+    gone: bool,
     /// `manual ondrop c=.. by=..`: leader -> (new caller, its arguments, on a second thread)
     hooks: BTreeMap<usize, (usize, Kv, bool)>,
     /// futures obtained inside a destructor, waiting for their `arrive` op
@@ -96,20 +162,28 @@ pub struct Shared {
 pub struct Hooked {
     c: usize,
     key: u64,
+    /// the service this call was made through
+    ix: usize,
+    /// `clonepanic=1`: the value this call produces panics the first time it is cloned
+    bomb: bool,
     /// finished, or panicked inside `poll`: not in flight any more
     over: bool,
     shared: Arc<Mutex<Shared>>,
     fut: InnerFut,
 }
 impl Future for Hooked {
-    type Output = Result<Resp, IErr>;
+    type Output = Result<CResp, CErr>;
     fn poll(mut self: Pin<&mut Self>, cx: &mut Context<'_>) -> Poll<Self::Output> {
         self.over = true; // stays set if the poll below unwinds
         let r = Pin::new(&mut self.fut).poll(cx);
         if r.is_pending() {
             self.over = false;
         }
-        r
+        let bomb = Bomb::armed(self.bomb);
+        r.map(|x| match x {
+            Ok(r) => Ok(CResp { r, bomb }),
+            Err(e) => Err(CErr { e, bomb }),
+        })
     }
 }
 impl Drop for Hooked {
@@ -119,7 +193,7 @@ impl Drop for Hooked {
         }
         let job = {
             let mut sh = self.shared.lock().unwrap_or_else(|e| e.into_inner());
-            match (sh.hooks.get(&self.c).cloned(), sh.svc.as_ref().map(|s| s.clone())) {
+            match (sh.hooks.get(&self.c).cloned(), sh.svcs.get(&self.ix).cloned()) {
                 (Some((c2, kv, thread)), Some(svc)) if !sh.known.contains(&c2) => {
                     sh.hooks.remove(&self.c);
                     sh.known.insert(c2);
@@ -136,15 +210,16 @@ impl Drop for Hooked {
             // this destructor blocks; meanwhile another thread makes the request
             let rt = tokio::runtime::Handle::current();
             std::thread::scope(|s| {
+                let ix = self.ix;
                 s.spawn(move || {
                     let _g = rt.enter();
-                    request(svc, c2, req)
+                    request(svc, ix, c2, req)
                 })
                 .join()
                 .unwrap_or(None)
             })
         } else {
-            request(svc, c2, req)
+            request(svc, self.ix, c2, req)
         };
         if let Some(x) = got {
             self.shared.lock().unwrap_or_else(|e| e.into_inner()).parked.insert(c2, x);
@@ -154,8 +229,8 @@ impl Drop for Hooked {
 
 /// One request the way a caller makes it: `poll_ready`, `call`; the handle (a clone) is dropped on return,
 /// as `Oneshot` does. `None` when no future came into being (the adapter has logged why).
-fn request(mut svc: Svc, c: usize, req: Req) -> Option<(SvcFut, bool)> {
-    request_on(&mut svc, c, req, true)
+fn request(mut svc: Svc, ix: usize, c: usize, req: Req) -> Option<(SvcFut, bool)> {
+    request_on(&mut svc, ix, c, req, true)
 }
 
 fn readied(svc: &mut Svc, c: usize) -> bool {
@@ -169,11 +244,15 @@ fn readied(svc: &mut Svc, c: usize) -> bool {
 }
 
 /// the same through a handle the caller goes on owning (`ready`: it has not been polled ready yet)
-fn request_on(svc: &mut Svc, c: usize, req: Req, ready: bool) -> Option<(SvcFut, bool)> {
+fn request_on(svc: &mut Svc, ix: usize, c: usize, req: Req, ready: bool) -> Option<(SvcFut, bool)> {
     if ready && !readied(svc, c) {
         return None;
     }
-    log_raw(format!("#arrive {} {}", c, req.key));
+    if ix == 0 {
+        log_raw(format!("#arrive {} {}", c, req.key));
+    } else {
+        log_raw(format!("#arrive {} {}@{}", c, req.key, ix));
+    }
     let before = log_len();
     let fut = match std::panic::catch_unwind(std::panic::AssertUnwindSafe(|| svc.call(req))) {
         Ok(f) => f,
@@ -187,21 +266,65 @@ fn request_on(svc: &mut Svc, c: usize, req: Req, ready: bool) -> Option<(SvcFut,
     Some((fut, led))
 }
 
+type LayerT = CoalesceLayer<u64, Req, KeyFn>;
+
 pub struct Adapter {
     shared: Arc<Mutex<Shared>>,
-    layer: Option<CoalesceLayer<u64, Req, KeyFn>>,
+    /// the ONE layer value every service is built from (`None`: `ctor=service`, or dropped by `manual dropsvc`)
+    layer: Option<LayerT>,
+    /// clones of the layer taken when the odd-numbered services were built
+    layer_clones: Vec<LayerT>,
+    /// the wrapped service; every coalescing service gets a clone of it
+    backend: Option<Inner>,
+}
+
+/// the layer, through the construction path the case header names (see the top of the file)
+fn make_layer(ctor: &str) -> Option<LayerT> {
+    match ctor {
+        "new" => Some(CoalesceLayer::new(key_of as KeyFn)),
+        "config" => {
+            let cfg: CoalesceConfig<u64, KeyFn> = CoalesceConfig::builder(key_of as KeyFn).name("verif").build();
+            Some(CoalesceLayer::with_config(cfg.clone()))
+        }
+        "confignew" => Some(CoalesceLayer::with_config(CoalesceConfig::new(key_of as KeyFn))),
+        "service" => None,
+        _ => Some(CoalesceLayer::builder(key_of as KeyFn).name("verif").build()),
+    }
 }
 
 impl Adapter {
-    pub fn new(_kv: &Kv) -> Adapter {
-        let layer: CoalesceLayer<u64, Req, KeyFn> = CoalesceLayer::builder(key_of as KeyFn).name("verif").build();
-        let shared = Arc::new(Mutex::new(Shared { svc: None, hooks: BTreeMap::new(), parked: BTreeMap::new(), known: BTreeSet::new() }));
-        let svc = layer.layer(CallPanic { inner: Inner::new(), shared: shared.clone() });
-        shared.lock().unwrap().svc = Some(svc);
-        Adapter { shared, layer: Some(layer) }
+    pub fn new(kv: &Kv) -> Adapter {
+        let shared = Arc::new(Mutex::new(Shared { svcs: BTreeMap::new(), gone: false, hooks: BTreeMap::new(), parked: BTreeMap::new(), known: BTreeSet::new() }));
+        let mut a = Adapter { shared, layer: make_layer(kv.str("ctor", "builder").as_str()), layer_clones: Vec::new(), backend: Some(Inner::new()) };
+        a.build(0);
+        a
     }
     fn sh(&self) -> std::sync::MutexGuard<'_, Shared> {
         self.shared.lock().unwrap_or_else(|e| e.into_inner())
+    }
+    /// Build service `ix` unless it exists: from the layer value itself (even `ix`), from a clone of the layer taken
+    /// now (odd `ix`), or — no layer — directly. Every `Layer::layer` call must yield a service with a table of its own.
+    fn build(&mut self, ix: usize) -> bool {
+        if self.sh().gone {
+            return false;
+        }
+        if self.sh().svcs.contains_key(&ix) {
+            return true;
+        }
+        let Some(backend) = self.backend.as_ref() else { return false };
+        let wrapped = CallPanic { inner: backend.clone(), shared: self.shared.clone(), ix };
+        let svc: Svc = match self.layer.as_ref() {
+            None => CoalesceService::new(wrapped, Arc::new(CoalesceConfig::new(key_of as KeyFn))),
+            Some(layer) if ix % 2 == 1 => {
+                let l2 = layer.clone();
+                let svc = l2.layer(wrapped);
+                self.layer_clones.push(l2);
+                svc
+            }
+            Some(layer) => layer.layer(wrapped),
+        };
+        self.sh().svcs.insert(ix, svc);
+        true
     }
     /// `via=` says how the caller obtains the handle it calls — all legitimate Tower usage, all must coalesce alike
     /// (the model has no notion of it):
@@ -215,11 +338,11 @@ impl Adapter {
     /// `readyclone`: ready the owner's handle, clone it, ready the clone, call the clone (the owner's handle stays
     ///   ready-but-uncalled), drop the clone.
     /// The handle is taken out of `Shared` for the duration (nothing else runs meanwhile) and put back.
-    fn request_via(&mut self, via: &str, c: usize, req: Req) -> Option<(SvcFut, bool)> {
-        let mut own = self.sh().svc.take()?;
+    fn request_via(&mut self, ix: usize, via: &str, c: usize, req: Req) -> Option<(SvcFut, bool)> {
+        let mut own = self.sh().svcs.remove(&ix)?;
         let (got, back) = match via {
             "template" => {
-                let got = request_on(&mut own, c, req, true);
+                let got = request_on(&mut own, ix, c, req, true);
                 (got, own)
             }
             "swap" => {
@@ -227,7 +350,7 @@ impl Adapter {
                     (None, own)
                 } else {
                     let fresh = own.clone();
-                    let got = request_on(&mut own, c, req, false);
+                    let got = request_on(&mut own, ix, c, req, false);
                     drop(own);
                     (got, fresh)
                 }
@@ -237,35 +360,45 @@ impl Adapter {
                     (None, own)
                 } else {
                     let svc = own.clone();
-                    (request(svc, c, req), own)
+                    (request(svc, ix, c, req), own)
                 }
             }
             _ => {
                 let svc = own.clone();
-                (request(svc, c, req), own)
+                (request(svc, ix, c, req), own)
             }
         };
-        self.sh().svc = Some(back);
+        self.sh().svcs.insert(ix, back);
         got
     }
 }
 impl Drop for Adapter {
     fn drop(&mut self) {
         // `Shared` holds the service, whose inner service holds `Shared`: break the cycle, outside the lock
-        let (svc, parked) = {
+        let (svcs, parked) = {
             let mut sh = self.sh();
             sh.hooks.clear();
-            (sh.svc.take(), std::mem::take(&mut sh.parked))
+            (std::mem::take(&mut sh.svcs), std::mem::take(&mut sh.parked))
         };
         drop(parked);
-        drop(svc);
+        drop(svcs);
     }
 }
 
-pub fn render(r: Result<Resp, CoalesceError<IErr>>) -> String {
+/// `arrive … eclone=1`: the caller looks at a clone of what it received, not at the value itself
+pub fn render_cloned(r: Result<CResp, CoalesceError<CErr>>) -> String {
+    let copy = match &r {
+        Ok(x) => Ok(x.clone()),
+        Err(e) => Err(e.clone()),
+    };
+    drop(r);
+    render(copy)
+}
+
+pub fn render(r: Result<CResp, CoalesceError<CErr>>) -> String {
     match r {
-        Ok(x) => format!("ok:{}", x.v),
-        Err(CoalesceError::Service(e)) => format!("err:inner{}:{}", e.kind, e.v),
+        Ok(x) => format!("ok:{}", x.r.v),
+        Err(CoalesceError::Service(e)) => format!("err:inner{}:{}", e.e.kind, e.e.v),
         Err(CoalesceError::LeaderCancelled) => "err:leader_cancelled".into(),
         Err(CoalesceError::RecvError) => "err:recv_error".into(),
     }
@@ -292,7 +425,7 @@ impl Mw for Adapter {
         let (parked, owner) = {
             let mut sh = self.sh();
             sh.known.insert(c);
-            (sh.parked.remove(&c), sh.svc.is_some())
+            (sh.parked.remove(&c), !sh.gone)
         };
         let got = if let Some(x) = parked {
             // the request was made inside a destructor (`manual ondrop`); this op only hands the future to the poller
@@ -304,26 +437,37 @@ impl Mw for Adapter {
                 return None;
             }
             let mut req = Req::new(c, kv);
+            if kv.u64("clonepanic", 0) == 1 {
+                req.tag = CLONE_PANIC;
+            }
             if kv.u64("callpanic", 0) == 1 {
                 req.tag = CALL_PANIC;
             }
-            self.request_via(kv.str("via", "clone").as_str(), c, req)
+            let ix = kv.u64("svc", 0) as usize;
+            if !self.build(ix) {
+                log("noop".into());
+                return None;
+            }
+            self.request_via(ix, kv.str("via", "clone").as_str(), c, req)
         };
         let (fut, led) = got?;
         let fut = Traced { c, on: !led, fut: Box::pin(fut) };
-        Some(held(fut, render))
+        Some(held(fut, if kv.u64("eclone", 0) == 1 { render_cloned } else { render }))
     }
     fn manual(&mut self, what: &str, kv: &Kv) {
         if what == "dropsvc" {
-            let svc = {
+            let svcs = {
                 let mut sh = self.sh();
-                if sh.svc.is_some() {
+                if !sh.gone {
                     log_raw("#dropsvc".into());
                 }
-                sh.svc.take()
+                sh.gone = true;
+                std::mem::take(&mut sh.svcs)
             };
-            drop(svc);
+            drop(svcs);
             drop(self.layer.take());
+            self.layer_clones.clear();
+            drop(self.backend.take());
         } else if what == "ondrop" {
             if let (Some(c), Some(c2)) = (kv.opt_u64("c"), kv.opt_u64("by")) {
                 let args = Kv(kv.0.iter().filter(|(k, _)| k == "inner").cloned().collect());
